@@ -227,6 +227,14 @@ func (h *anteH) randFee(ic implCfg, ms []aMsg) (sdk.Coins, string) {
 		a = new(big.Int).Set(limit)
 		kind += "/cap"
 	}
+	if r.Rng.Intn(14) == 0 {
+		// the same amount in a look-alike of the chosen denomination (the payer holds it; the registry does not know it)
+		d1 = lookalike(r, d1)
+		kind += "/lookalike"
+		if a.Cmp(big.NewInt(999_999_999)) > 0 {
+			a = big.NewInt(999_999_999)
+		}
+	}
 	fee := sdk.NewCoins(sdk.NewCoin(d1, sdkmath.NewIntFromBigInt(a))).Add(other...)
 	if r.Rng.Intn(60) == 0 {
 		fee = sdk.Coins{} // no fee at all
